@@ -12,7 +12,8 @@ PKG = "network/dag"
 HARNESS = ["network/dag/zz_verif_c14_test.go", "network/dag/zz_verif_c14opt_test.go"]
 HARNESSES = [(PKG, HARNESS, "c14"), ("network/transport/v2", ["network/transport/v2/zz_verif_c14_test.go"], "c14h"),
              ("network", ["network/zz_verif_c14_test.go"], "c14s"),
-             ("vcr", ["vcr/zz_verif_c14_test.go"], "c14v")]
+             ("vcr", ["vcr/zz_verif_c14_test.go"], "c14v"),
+             ("network/api/v1", ["network/api/v1/zz_verif_c14_test.go"], "c14a")]
 ROOT = os.path.dirname(os.path.dirname(os.path.abspath(__file__)))
 
 REQUIRED = ["no_loss", "admitted_by_commit", "only_admitted_delivered", "save_event_reaches_every_subscriber", "add_with_shelf_fault_admits_nothing", "duplicate_add_changes_nothing", "fact_save_event_all_or_nothing", "payload_event_per_transaction", "identical_payload_witness", "payload_no_loss_partial", "payload_available_no_loss_fails", "not_admitted_unchanged", "no_call_after_done",
@@ -27,6 +28,8 @@ REQUIRED = ["no_loss", "admitted_by_commit", "only_admitted_delivered", "save_ev
             "options_persistent_iff", "options_filters_accumulate", "options_last_delay_wins", "options_default_delay",
             "registry_names_unique", "first_registration_stays", "register_duplicate_refused", "save_proceeds_iff", "save_nonpersistent_iff",
             "calls_bounded_by_budget", "duplicate_payload_write_is_silent", "duplicate_payload_calls_again_without_guard", "fact_writePayload_notifies_only_what_it_saved",
+            "rest_lists_every_spent_job", "undelivered_visible_at_rest_api", "listEvents_ok", "failedRows_sound",
+            "cleanup_calls_nobody_and_records_what_it_removes", "cleanup_touches_only_named_failed_matching",
             "np_calls_bounded", "np_gives_up_after_budget", "retry_attempts_machine", "retry_attempts_refines", "retry_delay_never_overflows"]
 
 
@@ -264,8 +267,17 @@ def split_histories(ops, impl):
 
 
 def run(ctx):
+    tm, t0 = {}, time.time()
+    ctx.cov["phase_seconds"] = tm
+
+    def lap(name):
+        nonlocal t0
+        tm[name] = round(time.time() - t0, 1)
+        t0 = time.time()
     facts = ctx.facts()
-    thms = ctx.build_and_audit(["NutsProofs.Props.C14", "NutsProofs.Props.C14Ops"])
+    lap("facts")
+    thms = ctx.build_and_audit(["NutsProofs.Props.C14", "NutsProofs.Props.C14Ops", "NutsProofs.Props.C14Api"])
+    lap("lean-build+audit")
     for r in REQUIRED:
         if not any(t.endswith("Props." + r) for t in thms):
             ctx.oblige("thm-present:" + r, False, "theorem missing or its module does not build")
@@ -290,6 +302,7 @@ def run(ctx):
         ctx.oblige("harness-builds", False, ctx.harness_error[-1500:])
         return
     ctx.oblige("harness-builds", True)
+    lap("harness-build")
     env = {}
     if ctx.replay and '"o14' in open(ctx.replay, errors="replace").read(4000):
         options_oracle(ctx, binary, facts)     # a replay of the construction-side leg
@@ -307,11 +320,13 @@ def run(ctx):
         return
     ctx.oblige("harness-runs", True)
     ops_p, impl_p, model_p = (os.path.join(out, x) for x in ("ops.jsonl", "impl.out", "model.out"))
+    lap("main-harness")
     ok, err = ctx.model("C14", ops_p, model_p)
     ctx.oblige("model-driver-runs", ok, err[-500:])
     impl, model, bad = ctx.compare(impl_p, model_p)
     ops = ctx.read_lines(ops_p)
     cfg, hs = split_histories(ops, impl)
+    lap("model")
 
     # the harness registers exactly the persistent registrations the extractor found in the source
     if cfg and facts and not ctx.replay:
@@ -350,13 +365,21 @@ def run(ctx):
 
     # ---- handler level: the real protocol-v2 handleTransactionPayload on a real state (ties the dag-level re-enactment
     #      of its three steps to the handler; replays the second-payload witness, also across a restart)
+    lap("oracle+shrink")
     if not ctx.replay:
         handler_oracle(ctx)
+        lap("leg-v2-handler")
         resume_oracle(ctx, binary)
         duplicate_add_oracle(ctx, binary)
+        lap("leg-resume+dupadd")
         start_oracle(ctx)
+        lap("leg-network-start")
         classification_oracle(ctx)
+        lap("leg-vcr")
         options_oracle(ctx, binary, facts)
+        lap("leg-options")
+        api_oracle(ctx, facts)
+        lap("leg-rest-listing")
 
     # ---- real sleeping of the retry loop: never shorter than retryDelay * 2^(1+k) (capped), i.e. growing
     n_timing = 0
@@ -627,6 +650,32 @@ def start_oracle(ctx):
         ctx.violation("C14:cleanup-removes-events-it-should-keep",
                       f"real Network.CleanupSubscriberEvents({t!r}, {p!r}) (round {r}) removed {w}: undelivered events vanished instead of staying visible as failed",
                       "cleanup-removes-too-much.txt", "scenario of harness/inpkg/network/zz_verif_c14_test.go (VERIF_SEED=%s), failing round:\n%s\n" % (ctx.seed, line))
+    # ---- the clean-up calls against the model (NutsModel.C14.Api.cleanup) + recomputed here: exactly the failed events of the
+    #      named subscriber whose error starts with the prefix are gone, everything else is still there
+    ops_p, impl_p, model_p = (os.path.join(out, x) for x in ("ops.jsonl", "impl.out", "model.out"))
+    if os.path.exists(ops_p):
+        okm, err = ctx.model("C14", ops_p, model_p)
+        impl, model, badl = ctx.compare(impl_p, model_p)
+        cops = [json.loads(x) for x in ctx.read_lines(ops_p) if x.strip()]
+        thr = 10
+        wrong = []
+        for i, (op, line) in enumerate(zip(cops, impl)):
+            keep = [j for j in op["jobs"] if not (op["names"][j["s"]] == op["target"] and j["retries"] >= thr
+                                                  and op["errText"].get(j["err"], "").startswith(op["prefix"]))]
+            want = "clean|true|" + ",".join("%d.%d:%d:%s" % (j["s"], j["r"], j["retries"], j["err"]) for j in keep)
+            if line != want:
+                wrong.append((i, want, line))
+        ctx.oblige("oracle:cleanup:exactly-the-named-subscribers-matching-failed-events-are-removed", not wrong,
+                   "; ".join(f"call {i}: want {w[:120]} got {g[:120]}" for i, w, g in wrong[:2]))
+        if wrong:
+            i, w, g = wrong[0]
+            ctx.violation("C14:cleanup-removes-events-it-should-keep" if len(g) < len(w) else "C14:cleanup-leaves-events-it-should-remove",
+                          f"real Network.CleanupSubscriberEvents({cops[i]['target']!r}, {cops[i]['prefix']!r}): jobs left {g[:300]}; expected {w[:300]}",
+                          "cleanup-result.jsonl", json.dumps(cops[i]) + "\n")
+        ctx.oblige("correspondence:cleanup-model=impl", okm and not badl, f"{len(badl)} of {len(impl)} lines differ" if badl else f"{len(impl)} lines equal")
+        if badl and not wrong:
+            ctx.unproved(["correspondence C14 CleanupSubscriberEvents (Api model != impl)"], f"op {json.dumps(cops[badl[0]])[:600]}\nimpl {impl[badl[0]][:300]}\nmodel {model[badl[0]][:300]}")
+        ctx.cov["api_leg_cleanup"] = {"ops": len(cops)}
     ctx.cov["start_leg"] = {"rounds": rows, "unfinished_jobs": n_jobs, "job_states": dict(kinds), "cleanup_calls": n_cleanup}
 
 
@@ -766,6 +815,47 @@ def options_oracle(ctx, binary, facts):
     else:
         ctx.oblige("correspondence:options-model=impl", True, f"{len(impl)} lines equal")
     ctx.cov["options_leg"] = {"ops": len(ops), "distribution": dict(kinds)}
+
+
+def api_oracle(ctx, facts):
+    """the REAL api/v1 ListEvents over real notifiers on bbolt: every job at/over the failed threshold is in the answer under its
+    subscriber's name (with type, retries, error, hash), nothing else is; against NutsModel.C14.Api.listEvents and recomputed here"""
+    pkg, files, name = HARNESSES[4]
+    ab = ctx.go_test_binary(pkg, files, name)
+    if ab is None:
+        ctx.oblige("rest-harness-builds", False, ctx.harness_error[-1200:])
+        return
+    d = os.path.join(ctx.scratch, "outa")
+    rc, log, out = ctx.run_harness(ab, "TestVerifC14ListEvents", {}, outdir=d, timeout=600)
+    if rc != 0:
+        ctx.oblige("rest-harness-runs", False, "\n".join(l for l in log.split("\n") if "level=audit" not in l)[-1200:])
+        return
+    ops_p, impl_p, model_p = (os.path.join(out, x) for x in ("ops.jsonl", "impl.out", "model.out"))
+    okm, err = ctx.model("C14", ops_p, model_p)
+    impl, model, bad = ctx.compare(impl_p, model_p)
+    ops = [json.loads(x) for x in ctx.read_lines(ops_p) if x.strip()]
+    thr = (facts or {}).get("retriesFailedThreshold", 10)
+    wrong, n_listed, n_hidden = [], 0, 0
+    for i, (op, line) in enumerate(zip(ops, impl)):
+        rows = []
+        for s in op["order"]:
+            js = sorted((j for j in op["jobs"] if j["s"] == s and j["retries"] >= thr), key=lambda j: j["r"])
+            n_listed += len(js)
+            rows.append(op["names"][s] + "=[" + ",".join("%d:%s:%d:%s" % (j["r"], j["type"], j["retries"], j["err"]) for j in js) + "]")
+        n_hidden += sum(1 for j in op["jobs"] if j["retries"] < thr)
+        if line != "list|" + ";".join(rows):
+            wrong.append((i, "list|" + ";".join(rows), line))
+    ctx.oblige("rest-harness-runs", len(ops) > 0 and n_listed > 0 and n_hidden > 0, f"{len(ops)} listings, {n_listed} failed events, {n_hidden} jobs below the threshold")
+    ctx.oblige("oracle:rest:ListEvents-shows-exactly-the-failed-events-of-every-subscriber", not wrong,
+               "; ".join(f"listing {i}: want {w[:150]} got {g[:150]}" for i, w, g in wrong[:2]))
+    if wrong:
+        i, w, g = wrong[0]
+        ctx.violation("C14:rest-listing:failed-events-not-shown-as-they-are",
+                      f"real api/v1 ListEvents (listing {i}): answered {g[:300]}; the shelves hold {w[:300]}", "rest-listing.jsonl", json.dumps(ops[i]) + "\n")
+    ctx.oblige("correspondence:rest-listing-model=impl", okm and not bad, f"{len(bad)} of {len(impl)} lines differ" if bad else f"{len(impl)} lines equal")
+    if bad and not wrong:
+        ctx.unproved(["correspondence C14 ListEvents (Api model != impl)"], f"op {json.dumps(ops[bad[0]])[:600]}\nimpl {impl[bad[0]][:300]}\nmodel {model[bad[0]][:300]}")
+    ctx.cov["api_leg"] = {"ops": len(ops), "failed_events_listed": n_listed, "jobs_below_threshold": n_hidden}
 
 
 def shrink(ctx, binary, h, upto, sig, threshold):
